@@ -151,6 +151,15 @@ Stim(s, e) ==
                               !.paused = IF Len(b2) > s.hiC THEN TRUE ELSE s.paused]
       [] e.ev = "eof" -> [s EXCEPT !.eof = TRUE, !.paused = FALSE]
       [] e.ev = "setexc" -> [s EXCEPT !.exc = TRUE]
+      [] e.ev = "endexc" ->
+            \* end_http_chunk_receiving() immediately followed by set_exception(), both before the
+            \* woken consumer runs (one data_received call that completes a chunk and then fails)
+            LET pos == IF s.bounds # <<>> THEN s.bounds[Len(s.bounds)] ELSE 0
+                s1 == IF s.fed = pos THEN [s EXCEPT !.ends = s.ends \cup {s.fed}]
+                      ELSE LET b2 == Append(s.bounds, s.fed)
+                           IN [s EXCEPT !.bounds = b2, !.ends = s.ends \cup {s.fed},
+                                        !.paused = IF Len(b2) > s.hiC THEN TRUE ELSE s.paused]
+            IN [s1 EXCEPT !.exc = TRUE]
       [] e.ev = "unread" ->
             IF Len(e.data) = 0 THEN s
             ELSE [s EXCEPT !.pend = e.data \o s.pend, !.pieces = <<Len(e.data)>> \o s.pieces,
@@ -166,7 +175,7 @@ Stim(s, e) ==
             IN [s1 EXCEPT !.op = e.op, !.n = n1, !.acc = <<>>, !.blocked = FALSE]
       [] OTHER -> s
 
-IsStim(e) == e.ev \in {"feed", "begin", "end", "eof", "setexc", "unread", "call"}
+IsStim(e) == e.ev \in {"feed", "begin", "end", "eof", "setexc", "endexc", "unread", "call"}
 
 \* legality of a stimulus (the harness / model never issues illegal ones)
 Legal(s, e) ==
@@ -175,6 +184,7 @@ Legal(s, e) ==
       [] e.ev = "end" -> s.chunked /\ ~s.eof
       [] e.ev = "eof" -> ~s.eof
       [] e.ev = "setexc" -> ~s.exc
+      [] e.ev = "endexc" -> s.chunked /\ ~s.eof /\ ~s.exc
       [] e.ev = "unread" -> ~s.chunked /\ s.op = "none"
       [] e.ev = "call" -> s.op = "none"
       [] e.ev = "nowait" -> s.op = "none"
@@ -265,7 +275,10 @@ DriftClause(s, e) ==
         "none"    no consumer call in progress
      nowait: synchronous read_nowait(n) with result                            *)
 Apply(s, e) ==
-    IF ~Legal(s, e) THEN [s |-> s, bad |-> "IllegalStimulus", drift |-> ""]
+    \* after a LineTooLong error the number of bytes the failed call consumed is unspecified:
+    \* the reference has lost track of the buffer and judges nothing further in this execution
+    IF s.desync THEN [s |-> s, bad |-> "", drift |-> ""]
+    ELSE IF ~Legal(s, e) THEN [s |-> s, bad |-> "IllegalStimulus", drift |-> ""]
     ELSE IF "serr" \in DOMAIN e /\ e.serr # "" THEN [s |-> s, bad |-> "StimulusRaised", drift |-> ""]
     ELSE IF e.ev = "nowait" THEN
         LET before == [s EXCEPT !.op = "nowait", !.n = e.n]
